@@ -54,6 +54,7 @@ def bounds(tier):
                 "other_laws": {"laws": "5 further (law, parameter) configurations", "n": [2, 4]},
                 "near_ties": {"alphabet": [SCALE * v for v in NT], "n": [2, 3], "law": "binned-neuber/params0"},
                 "batch": {"ratios": RATIOS, "point_sets": "all ordered subsets of size 1..3 (40)", "sequences": "8 templates; 6 point sets x all n<=3 sequences"},
+                "batch_layouts(two-point batches)": BATCH_LAYOUTS,
                 "batch_class_edges": {"maxima": EDGE_MAXIMA, "sequences": "[k*M/100, -M] and [-M, k*M/100] for k=1..99, points (1, 2)"},
                 "mirror": {"n": [2, 4]}}
     return {"main": {"law": "all 6 (law, parameter) configurations", "alphabet": [SCALE * a for a in A5], "n": [2, 6]},
@@ -165,15 +166,34 @@ def run_single(seq, law):
     return rec.collective, det
 
 
-def run_multi(seq, ratios, kind, pidx):
+def _step_labels(n, layout):
+    """load_step labels in row (= time) order; the detector takes the row order, labels are arbitrary"""
+    if layout == "desc":
+        return [10 * (n - i) for i in range(n)]
+    if layout == "shuffled":
+        return [(7 * i + 3) % n if np.gcd(7, n) == 1 else (n - 1 - i if i % 2 else i) for i in range(n)] if n > 2 else [5, 2][:n]
+    return list(range(n))
+
+
+def run_multi(seq, ratios, kind, pidx, layout="asc"):
     import pylife.stress.rainflow.fkm_nonlinear as FN
     import pylife.stress.rainflow.recorders as RFR
     seq = np.array(seq, dtype=float)
     nodes = [11 + 3 * i for i in range(len(ratios))]
-    df = pd.DataFrame({node: r * seq for node, r in zip(nodes, ratios)})
-    df["load_step"] = range(len(seq))
-    signal = df.set_index("load_step").stack()
-    signal.index.names = ["load_step", "node_id"]
+    if layout == "sliced":
+        # the signal is a slice of a longer recording: its MultiIndex still carries the dropped load steps as unused level values
+        long = np.concatenate([[777.0], seq[:1], [-555.0], seq[1:], [333.0]])
+        df = pd.DataFrame({node: r * long for node, r in zip(nodes, ratios)})
+        df["load_step"] = range(len(long))
+        full = df.set_index("load_step").stack()
+        full.index.names = ["load_step", "node_id"]
+        keep = ~full.index.get_level_values("load_step").isin([0, 2, len(long) - 1])
+        signal = full[keep]
+    else:
+        df = pd.DataFrame({node: r * seq for node, r in zip(nodes, ratios)})
+        df["load_step"] = _step_labels(len(seq), layout)
+        signal = df.set_index("load_step").stack()
+        signal.index.names = ["load_step", "node_id"]
     law = _law(kind, pidx, signal.abs().groupby("node_id").max())
     rec = RFR.FKMNonlinearRecorder()
     det = FN.FKMNonlinearDetector(recorder=rec, notch_approximation_law=law)
@@ -248,11 +268,21 @@ def compare_mirror(seq, kind, pidx):
     return []
 
 
-def compare_batch(seq, ratios, kind="binned-neuber", pidx=0):
+BATCH_LAYOUTS = ("asc", "desc", "shuffled", "sliced")
+
+
+def compare_batch(seq, ratios, kind="binned-neuber", pidx=0, layout=None):
+    if layout is None:
+        # two-point batches additionally with load_step labels that are not ascending and as a slice of a longer signal
+        out = []
+        for lay in (BATCH_LAYOUTS if len(ratios) == 2 else BATCH_LAYOUTS[:1]):
+            out += compare_batch(seq, ratios, kind, pidx, lay)
+        return out
+    sfx = "" if layout == "asc" else "/load_step-labels-" + layout
     try:
-        cm = run_multi(seq, ratios, kind, pidx)
+        cm = run_multi(seq, ratios, kind, pidx, layout)
     except Exception as e:  # noqa: BLE001
-        return [("C05/batch/raises-%s" % type(e).__name__, {"error": str(e)[:200]})]
+        return [("C05/batch%s/raises-%s" % (sfx, type(e).__name__), {"error": str(e)[:200], "layout": layout})]
     viol = []
     for k, r in enumerate(ratios):
         sseq = [r * v for v in seq]
@@ -260,7 +290,7 @@ def compare_batch(seq, ratios, kind="binned-neuber", pidx=0):
         cs, _ = run_single(sseq, law)
         part = cm.xs(k, level="assessment_point_index") if len(cm) else cm
         if len(part) != len(cs):
-            viol.append(("C05/batch/number-of-hystereses", {"point": k, "ratio": r, "batch": len(part), "alone": len(cs)}))
+            viol.append(("C05/batch%s/number-of-hystereses" % sfx, {"point": k, "ratio": r, "batch": len(part), "alone": len(cs), "layout": layout}))
             break
         bad = None
         for name in COLS:
@@ -268,7 +298,7 @@ def compare_batch(seq, ratios, kind="binned-neuber", pidx=0):
                 bad = name
                 break
         if bad:
-            viol.append(("C05/batch/column-" + bad, {"point": k, "ratio": r, "batch": _col(part, bad).tolist(), "alone": _col(cs, bad).tolist()}))
+            viol.append(("C05/batch%s/column-%s" % (sfx, bad), {"point": k, "ratio": r, "batch": _col(part, bad).tolist(), "alone": _col(cs, bad).tolist(), "layout": layout}))
             break
     return viol
 
@@ -298,7 +328,7 @@ def run_shard(shard):
         _, seq, sets = shard
         for ratios in sets:
             acc.cases += 1
-            acc.evaluations += 2 * (1 + len(ratios))
+            acc.evaluations += 2 * (1 + len(ratios)) * (len(BATCH_LAYOUTS) if len(ratios) == 2 else 1)
             if len(ratios) >= 2:
                 acc.nontrivial += 1
             viol = compare_batch(seq, list(ratios))
@@ -311,7 +341,7 @@ def run_shard(shard):
         for seq in block:
             for ratios in sets:
                 acc.cases += 1
-                acc.evaluations += 2 * (1 + len(ratios))
+                acc.evaluations += 2 * (1 + len(ratios)) * (len(BATCH_LAYOUTS) if len(ratios) == 2 else 1)
                 if len(ratios) >= 2:
                     acc.nontrivial += 1
                 for key, detail in compare_batch(seq, list(ratios)):
